@@ -38,7 +38,7 @@ CBMC_FLAGS = ['--unwinding-assertions', '--pointer-overflow-check', '--undefined
 
 class Unit:
     """a shim translation unit plus the repo TUs it links"""
-    def __init__(self, name, shim=None, repo_tus=(), flags=(), includes=(), description='', resumable=(), clang_flags=(), yield_filter=None):
+    def __init__(self, name, shim=None, repo_tus=(), flags=(), includes=(), description='', resumable=(), clang_flags=(), yield_filter=None, stubs=()):
         self.name = name
         self.shim = shim or ('shims/%s.cpp' % name)
         self.repo_tus = list(repo_tus)
@@ -46,6 +46,7 @@ class Unit:
         self.includes = list(includes)
         self.description = description
         self.clang_flags = list(clang_flags)   # flags for the IR build only (e.g. -mllvm -inline-threshold=N)
+        self.stubs = list(stubs)   # regexes on IR function names: body emitted as NAME__real, calls go to NAME which the harness defines (contract stubs)
         self.yield_filter = yield_filter   # regex on 'ctype:address expression'; only matching accesses are scheduling points
         self.resumable = list(resumable)   # regexes of generated-C function names that also get a resumable rendering (interleaving harnesses)
 
@@ -125,6 +126,30 @@ def run(cmd, cwd=None, timeout=None, mem_gb=None, env=None, stdin=None, rusage=F
     return (rc, out, dt, ru.ru_maxrss) if rusage else (rc, out, dt)
 
 
+class cpu_slot:
+    """machine-wide limit on concurrently running solver / native jobs (several ./check runs may be active at once):
+    one flock'ed file per core under /tmp/vf_slots; waiting for a slot does not count against a job's timeout"""
+    N = int(os.environ.get('VF_SLOTS', str(os.cpu_count() or 16)))
+    def __enter__(self):
+        import fcntl
+        d = '/tmp/vf_slots'
+        os.makedirs(d, exist_ok=True)
+        order = list(range(self.N)); random.shuffle(order)
+        while True:
+            for i in order:
+                f = open(os.path.join(d, 'slot%d' % i), 'w')
+                try:
+                    fcntl.flock(f, fcntl.LOCK_EX | fcntl.LOCK_NB)
+                    self.f = f
+                    return self
+                except OSError:
+                    f.close()
+            time.sleep(0.25)
+    def __exit__(self, *a):
+        try: self.f.close()
+        except Exception: pass
+
+
 def sh(cmd, **kw):
     rc, out, dt = run(cmd, **kw)
     if rc != 0:
@@ -176,13 +201,13 @@ def build_unit(unit, work):
     sh(['opt-14', '-S', '-O1', '-non-global-value-max-name-size=65536', '-vectorize-loops=false', '-vectorize-slp=false', '-unroll-threshold=0', linked, '-o', opt])
     text = open(opt).read()
     try:
-        ctext, info = ll2c.translate(text, resumable=unit.resumable, yield_filter=unit.yield_filter)
+        ctext, info = ll2c.translate(text, resumable=unit.resumable, yield_filter=unit.yield_filter, stubs=unit.stubs)
     except Exception as e:
         raise BuildError('ll2c failed on unit %s: %s\n%s' % (unit.name, e, traceback.format_exc()[-1500:]))
     cpath = os.path.join(d, 'unit.c')
     open(cpath, 'w').write(ctext)
     b = Built()
-    b.c = cpath; b.real_objs = objs; b.functions = info['functions']; b.ir_lines = text.count('\n')
+    b.c = cpath; b.real_objs = objs; b.functions = info['functions']; b.stubbed = info.get('stubbed', []); b.ir_lines = text.count('\n')
     b.c_lines = ctext.count('\n'); b.dir = d; b.t = time.time() - t0
     b.defined = set(re.findall(r'^define [^@]*@("?[^"(\s]+"?)\(', text, re.M))
     return b
@@ -239,6 +264,11 @@ def case_key(params):
 
 def run_case(h, built, work, params, kfmodes, tag, trace=False, no_witness=False):
     """compile + run cbmc for one case. returns dict"""
+    with cpu_slot():
+        return run_case_(h, built, work, params, kfmodes, tag, trace, no_witness)
+
+
+def run_case_(h, built, work, params, kfmodes, tag, trace=False, no_witness=False):
     hid = hashlib.md5((h.name + case_key(params) + tag).encode()).hexdigest()[:12]
     gb = os.path.join(work, 'c_%s.gb' % hid)
     d = dict(params); d.update({'KF_' + k: v for k, v in kfmodes.items()})
@@ -331,8 +361,9 @@ def diff_run(h, gen, real, cases, kfmodes, seed):
     total = 0; skipped = 0; mism = []; crashes = 0
     def one(params):
         args = ['diff', str(seed), str(h.diff_iters)] + ['%s=%s' % kv for kv in params.items() if not kv[0].startswith('_')] + ['KF_%s=%s' % kv for kv in kfmodes.items()]
-        rc1, o1, _ = run([gen] + args, timeout=300, env=NATIVE_ENV)
-        rc2, o2, _ = run([real] + args, timeout=600, env=NATIVE_ENV)
+        with cpu_slot():
+            rc1, o1, _ = run([gen] + args, timeout=300, env=NATIVE_ENV)
+            rc2, o2, _ = run([real] + args, timeout=600, env=NATIVE_ENV)
         return params, rc1, o1, rc2, o2
     with ThreadPoolExecutor(max_workers=min(NPROC, max(1, len(pick)))) as ex:
         for params, rc1, o1, rc2, o2 in ex.map(one, pick):
